@@ -27,7 +27,7 @@ ASSUMPTIONS = ["coordinates on a 1/4 grid"]
 ZWSP, NBSP = "\u200b", "\u00a0"
 LOCS = ["tl", "t", "tr", "r", "br", "b", "bl", "l", "c", "t:25%", "r:75%", "b:2", "l:-1"]
 WORDS = ["Hello", "a & b", "x < y", "q > r", 'say "hi"', "it's", "&amp; literal", "&#38;", "tab\there", "  lead", "trail  ", "😀 é 日本", "a--b", "]]>",
-         "<tag attr='1'>", "100%", "#a", "@tl", "^", "a|b", "~w", "semi;colon", "(p)", "[b]", "=", "`", "\\", "C:\\dir", "\\t", "two  spaces", "-", "..."]
+         "<tag attr='1'>", "100%", "#a", "run \\", "\\", "@tl", "^", "a|b", "~w", "semi;colon", "(p)", "[b]", "=", "`", "\\", "C:\\dir", "\\t", "two  spaces", "-", "..."]
 
 
 def gen_string(rng):
@@ -81,18 +81,27 @@ def encode_attr_text(rng, S):
     return "".join(out)
 
 
-def has_ambiguous_backslash(S):
-    # a backslash directly before a line break, or "\\n" sequences, interact with the \n escape: not generated
-    return "\\\n" in S or "\\n" in S or S.endswith("\\")
+def has_ambiguous_backslash(S, literal_newlines=False):
+    # "\\n" sequences interact with the \n escape: not generated. A backslash directly before a line break is ambiguous only
+    # where the line break itself is spelled \n (text attribute); before a literal line break (element / CDATA content, e.g.
+    # a shell line continuation) it is just a backslash.
+    if "\\n" in S or S.endswith("\\"):
+        return True
+    return "\\\n" in S and not literal_newlines
 
 
 def make_case(rng):
     while True:
         S, feats = gen_string(rng)
-        if not has_ambiguous_backslash(S) and S.strip() != "" and expected_lines(S) and any(l for l in expected_lines(S)):
+        if not has_ambiguous_backslash(S, literal_newlines=True) and S.strip() != "" and expected_lines(S) and any(l for l in expected_lines(S)):
             break
     shape = rng.choice(["rect", "rect", "circle", "ellipse", "line", "text", "box", "point", "polygon"])
     carrier = rng.choice(["attr", "attr", "content", "cdata"]) if shape in ("rect", "circle", "ellipse", "line", "text") else "attr"
+    if has_ambiguous_backslash(S):
+        # only unambiguous with literal line breaks
+        shape = rng.choice(["rect", "circle", "ellipse", "line", "text"])
+        carrier = rng.choice(["content", "cdata"])
+        feats.add("line.ends-with-backslash")
     # substitution inside the string
     sub = rng.random()
     src = S
